@@ -33,6 +33,10 @@ const (
 	// announced itself (LockState.Pending: new readers are held back, as in the real RWMutex) and waits
 	// for the active readers to leave.
 	OpLockWait
+	// OpUnlock: a point right AFTER a mutex was released (only when Sched.UnlockPoints is set): lets another
+	// thread run between an Unlock and the releasing thread's next operations that are not points themselves
+	// (timer resets, channel operations, plain memory) - where a lock scope that was narrowed too far shows.
+	OpUnlock
 )
 
 // LockState is the modelled state of a mutex (embedded in vsync.Mutex / RWMutex).
@@ -86,7 +90,9 @@ type Sched struct {
 	// DeviationCost: bound deviations from the default schedule (any non-default choice costs 1) instead of
 	// preemptions only (choices offered when the running thread blocks or ends are then no longer free).
 	DeviationCost bool
-	Deadlock bool
+	// UnlockPoints: see OpUnlock. Off by default (doubles the points of every critical section).
+	UnlockPoints bool
+	Deadlock     bool
 	Diverged string
 	StepCap  bool
 	aborting atomic.Bool
@@ -173,7 +179,7 @@ func creator() string {
 // contended lock); any other goroutine (freshly adopted, or woken from a durable block) parks at
 // its first operation whatever the filter, so that only the baton holder runs repo code.
 func (s *Sched) Point(kind OpKind, label string, lock *LockState) {
-	if s.aborting.Load() {
+	if s.aborting.Load() || (kind == OpUnlock && !s.UnlockPoints) {
 		return
 	}
 	t, fresh := s.self()
